@@ -166,10 +166,20 @@ func (st *cacheState) apply(op []string, o *hx.Out) {
 			return fmt.Sprintf("evicted=%s added=%d count=%d", evs, a, st.c.Count())
 		case "get":
 			v, ok := st.c.Get(hx.UnHex(op[1]), time.Time{})
-			if !ok {
-				return "none"
+			// Contains is the same look-up (an entry stays visible until Expire, Delete or an eviction removes it),
+			// whatever time the caller passes: no time, a past one, one far in the future
+			cs := ""
+			for _, at := range []time.Time{{}, tm(1), tm(1 << 40)} {
+				if st.c.Contains(hx.UnHex(op[1]), at) {
+					cs += "1"
+				} else {
+					cs += "0"
+				}
 			}
-			return hx.Hex(v)
+			if !ok {
+				return "none c=" + cs
+			}
+			return hx.Hex(v) + " c=" + cs
 		case "del":
 			e := st.c.Delete(hx.UnHex(op[1]))
 			s := "-"
@@ -426,12 +436,12 @@ func cacheOracle(r *rand.Rand, n int, tier string, infile string, checkMap, chec
 					}
 				}
 			case "get":
-				want := "none"
+				want := "none c=000"
 				if e, ok := refm[op[1]]; ok {
-					want = hx.Hex(e.val)
+					want = hx.Hex(e.val) + " c=111"
 				}
 				if res != want && checkMap {
-					fail(hist, "Get(%s) = %s, reference map says %s", op[1], res, want)
+					fail(hist, "Get(%s) and Contains at three times = %s, reference map says %s", op[1], res, want)
 				}
 			case "del":
 				delete(refm, op[1])
